@@ -64,6 +64,9 @@ var contexts = []struct {
 	{"mixed-even-returns", false, true},
 	{"mixed-return-at-1", false, true},
 	{"mixed-discard-at-1", false, true},
+	// two closure instances of ONE function literal (same code, different captured values) calling each other in
+	// return position: not a self call, so never frame reuse - each activation keeps its own captured variables
+	{"sibling-closures", false, false},
 }
 
 func ctxInfo(name string) (tail, ternary bool) {
@@ -78,6 +81,17 @@ func ctxInfo(name string) (tail, ternary bool) {
 // build: f counts n down to 0 accumulating in a (when present); returns a (or n-based value).
 func build(c Case) *gen.Program {
 	I, N, B := gen.I, gen.N, gen.B
+	if c.Context == "sibling-closures" {
+		lit := &gen.FuncLit{Params: []string{"n", "me", "other"}, Body: []gen.Stmt{
+			&gen.If{Cond: B("==", I("n"), N("0")), Then: []gen.Stmt{&gen.Return{X: &gen.ArrayLit{Elems: []gen.Expr{I("k"), I("n")}}}}},
+			&gen.Return{X: &gen.Call{F: I("other"), Args: []gen.Expr{B("-", I("n"), N("1")), I("other"), I("me")}}}}}
+		mk := &gen.FuncLit{Params: []string{"k"}, Body: []gen.Stmt{&gen.Return{X: lit}}}
+		return &gen.Program{Main: []gen.Stmt{
+			gen.Def("mk", mk), gen.Def("fa", C("mk", N("1"))), gen.Def("fb", C("mk", N("2"))),
+			gen.Def("out", &gen.Call{F: I("fa"), Args: []gen.Expr{N(fmt.Sprint(c.Depth)), I("fa"), I("fb")}}),
+			gen.Def("out2", &gen.Call{F: I("fb"), Args: []gen.Expr{N(fmt.Sprint(c.Depth)), I("fb"), I("fa")}}),
+			gen.Set(I("mk"), gen.Undef()), gen.Set(I("fa"), gen.Undef()), gen.Set(I("fb"), gen.Undef())}}
+	}
 	var params []string
 	variadic := false
 	switch c.Params {
@@ -95,18 +109,28 @@ func build(c Case) *gen.Program {
 	if c.Context == "method-return" {
 		callee = &gen.Sel{X: I("m"), Name: "f"}
 	}
+	// the extra locals (l0 = n + 0, l1 = n + 1) stay live until the recursive call: its arguments are computed from
+	// them, so the slots must survive the evaluation of the callee and the earlier arguments
+	next := gen.Expr(B("-", I("n"), N("1")))
+	one := gen.Expr(N("1"))
+	if c.Locals >= 1 {
+		next = B("-", I("l0"), N("1"))
+	}
+	if c.Locals >= 2 {
+		one = B("-", I("l1"), I("l0"))
+	}
 	var args []gen.Expr
-	args = append(args, B("-", I("n"), N("1")))
+	args = append(args, next)
 	switch c.Params {
 	case "n,a":
-		args = append(args, B("+", I("a"), N("1")))
+		args = append(args, B("+", I("a"), one))
 	case "n,a,b":
-		args = append(args, B("+", I("a"), N("1")), I("a"))
+		args = append(args, B("+", I("a"), one), I("a"))
 	}
 	call := &gen.Call{F: callee, Args: args}
 	if c.Params == "n,...r" {
 		// pass the rest through a spread, growing it only at the first step so that arrays stay small
-		call = &gen.Call{F: callee, Args: []gen.Expr{B("-", I("n"), N("1")), I("r")}, Spread: true}
+		call = &gen.Call{F: callee, Args: []gen.Expr{next, I("r")}, Spread: true}
 	}
 	// base value
 	var base gen.Expr = N("100")
@@ -360,6 +384,9 @@ func main() {
 					for _, d := range depths {
 						if capt && d > 2049 && !r.Thorough() {
 							continue
+						}
+						if cx.name == "sibling-closures" && (ps != "n" || locals != 0 || capt) {
+							continue // the shape has no parameter / local / capture variants
 						}
 						if strings.HasPrefix(cx.name, "mixed-") && d > 1025 {
 							continue // beyond the reference's own frame budget the expected value is not defined by a sibling program
